@@ -268,6 +268,21 @@ CHECKS["C18"] = (
     "DESIGN.md section 3, C18",
 )
 
+CHECKS["C19"] = (
+    "ENUM",
+    "model_checking",
+    "exhaustive enumeration of command x grammar source x constraint source x input source x flag combinations against a contract table, plus solve->check and parse->check pipelines",
+    "About 1500 command lines: check and parse over the full product of 7 grammar sources (BNF file ok/malformed/empty, --grammar, Python "
+    "file with/without a grammar, missing) x 8 constraint sources (file, unsatisfiable, malformed, empty file, -c once, -c twice, file plus "
+    "-c, missing) x 11 input sources (file valid / without trailing newline / syntactically invalid / violating / empty, JSON tree, JSON of "
+    "an invalid tree, -i string, -i \"\", two inputs, missing); solve, repair and mutate over reduced products. They run in-process through "
+    "isla.cli.main with SystemExit caught; twelve representatives also run as real `python -m isla` processes and must agree. Expected exit "
+    "codes come from a contract table that uses the reference semantics for the CONJUNCTION of all constraints. Pipelines feed every line, "
+    "-d file and --tree file of `isla solve`, and the JSON of `isla parse`, back to `isla check` for two grammars (one whose words end in a newline).",
+    "Combinations the contract does not rank accept any applicable code but never a traceback.",
+    "DESIGN.md section 3, C19",
+)
+
 NOT_YET = "check not built yet in this round (planned in DESIGN.md section 3)"
 
 
